@@ -133,6 +133,41 @@ def run(chk):
                 return compare(r, spec_fisher(d), gax(kind, d) + (1,), "FisherKPP")
             chk.run("C02.R1", f"{MOD}:FisherKPP.equation", {"kind": kind, "d": d}, go, construct=f"FisherKPP[{kind}]")
 
+        # Fisher-KPP with ONE parameter declared heterogeneous (the others omitted from the map): the residual is the documented
+        # expression with that parameter replaced by the user function's value at (t, x), every other parameter as given
+        if kind == 'PINN':
+            for hkey in ('g', 'D'):
+                def go_het(hkey=hkey):
+                    from ..alg import Fv, to_at
+                    from ..specs import F as Fs
+
+                    def hfun(t, x, u_, params_):
+                        for p_, tag in ((t, 'T'), (x, 'X')):
+                            tags = {at_[0] for e_ in to_at(p_).entries() for at_ in e_.atoms()}
+                            if tags != {tag}:
+                                raise Finding(f"heterogeneity function called with a {sorted(tags)} argument where the "
+                                              f"{'time' if tag == 'T' else 'space point'} is documented")
+                        return Fv(f'h_{hkey}', ()).data[()]
+                    inst = cls("FisherKPP").make(Tmax=K("Tmax"), eq_params_heterogeneity={hkey: hfun})
+                    t, x = inputs('PINN', 1)
+                    u = Net('u', 'PINN', 1, 'nonstatio_PDE', 1)
+                    r = inst.evaluate(t, x, u, params({"D": Pm("D"), "r": Pm("r"), "g": Pm("g")}))
+                    pk = ((P(hkey).single_atom(), 1),)
+                    exp = []
+                    for q in spec_fisher(1):
+                        out = Poly()
+                        for mono, c in q.t.items():
+                            term_ = Poly.const(c)
+                            for a_, e_ in mono:
+                                base = Fs(f'h_{hkey}') if a_ == P(hkey).single_atom() else Poly({((a_, 1),): 1})
+                                for _ in range(e_):
+                                    term_ = term_ * base
+                            out = out + term_
+                        exp.append(out)
+                    return compare(r, exp, (1,), "FisherKPP")
+                chk.run("C02.R1", f"{MOD}:FisherKPP.equation", {"kind": kind, "d": 1, "heterogeneous": hkey, "other_keys": "omitted"},
+                        go_het, construct="FisherKPP[PINN, heterogeneous parameter]")
+
         # Ornstein-Uhlenbeck Fokker-Planck 2D
         def go(kind=kind):
             inst = cls("OU_FPENonStatioLoss2D").make(Tmax=K("Tmax"), eq_params_heterogeneity=None)
